@@ -154,6 +154,21 @@ CHECKS["C10"] = dict(
     design_ref="DESIGN.md section 3 / C10",
 )
 
+CHECKS["C14"] = dict(
+    category="other",
+    text=("Clause-level, per build configuration (the fact extractor is run under a matrix of HBS_LMS_* environments: per-level limits that differ, one level, "
+          "mixed heights, eight minimal levels ...): (V1) every use of a configuration-dependent named constant in code reachable from the API is a limit use "
+          "(comparison, indexed limit table, element-selecting loop bound) - never a length, offset or value; (V2) every function body has the same constants, callees "
+          "and byte-array-to-slice lengths as in the default build; (V3) the decoder appends a parameter only on the success edge of the per-level limit predicate, "
+          "which is a conjunction of both comparisons, parameters below keygen/sign/lifetime come only from the decoder, and the capacities evaluated from this "
+          "configuration's constants cover the limits (authentication path, chain count, HSS signature length incl. the u16 length field); (V4) the panic-freedom "
+          "engine discharges every site of C11's and C06's entry points with this configuration's capacities; (V5) the crate builds in the configuration. "
+          "NOT decided: byte equality of keys and signatures across builds as a runtime fact."),
+    note="V1+V2 give 'same code, same constants' for accepted parameter lists; V3+V4 give refusal instead of a crash. Configurations outside the matrix are not covered.",
+    technique="build-matrix fact extraction; forward def-use classification of configuration-dependent constants; cross-configuration MIR skeleton comparison; guard facts; reference tables; abstract interpretation (panic-freedom engine) per configuration",
+    design_ref="DESIGN.md section 3 / C14",
+)
+
 NOT_APPLICABLE = {
     "C01": ("Round-trip completeness (sign then verify succeeds) is equality of two computations over runtime values "
             "(message, seed, counter, 6x4x5^L parameter shapes); no dataflow/typestate fact bounds it. Its structural "
